@@ -773,6 +773,7 @@ func (e *Engine) mapComponents(mt *types.Map) mapComps {
 		e.sc.add(fmt.Sprintf("(declare-const %s %s)", c.init, sort))
 		e.comps[key] = c
 		e.compOrder = append(e.compOrder, key)
+		e.lateHavoc(c)
 		return c
 	}
 	mc := mapComps{present: mk("#present", SBool)}
